@@ -224,6 +224,125 @@ fn flush(rep: &mut Report) {
     rep.hit_n("leaves_of_different_lengths", DIFF_LEN.with(|c| c.replace(0)));
 }
 
+// ------------------------------------------------------------------ concrete stacks, re-wrapped mid-stream
+// tree.rs builds every level behind `Box<dyn Signal>`, so a provided trait method that a concrete
+// adaptor type overrides (say `Signal::delay` on `Delay<S>`, to merge nested delays) is never
+// selected there, and a signal is only ever wrapped when it is fresh. Here the inner adaptor is a
+// CONCRETE type over the leaf, is pulled m times (m = 0, 1, 3), and is then moved BY VALUE into
+// the outer adaptor - for every ordered pair of the nine unary adaptors. The outer adaptor must
+// behave as if it had been given a fresh signal whose frames are the inner one's remaining frames.
+type CF = [i16; 2];
+const STACK_KINDS: [&str; 9] = ["map", "scale_amp", "offset_amp", "clip_amp", "delay", "inspect", "scale_amp_per_channel", "offset_amp_per_channel", "delay0"];
+fn stack_node(kind: &str) -> Node {
+    let l = Box::new(Node::Leaf(0));
+    match kind {
+        "map" => Node::Map(l, 1),
+        "scale_amp" => Node::ScaleAmp(l, 0.5),
+        "offset_amp" => Node::OffsetAmp(l, 4),
+        "clip_amp" => Node::ClipAmp(l, 4),
+        "delay" => Node::Delay(l, 2),
+        "delay0" => Node::Delay(l, 0),
+        "inspect" => Node::Inspect(l),
+        "scale_amp_per_channel" => Node::ScaleAmpPerChannel(l, 0.5),
+        _ => Node::OffsetAmpPerChannel(l, 4),
+    }
+}
+/// the outer adaptor's pointwise function (delays and inspect are the identity on frames)
+fn stack_pointwise(kind: &str, x: CF) -> CF {
+    match kind {
+        "map" | "scale_amp" => x.scale_amp(0.5f32),
+        "offset_amp" => x.offset_amp(amp_sample::<i16>(4)),
+        "clip_amp" => CF::from_fn(|ch| clip_expected::<i16>(x[ch], 4)),
+        "scale_amp_per_channel" => CF::from_fn(|ch| Sample::mul_amp(x[ch], pc_gain(0.5, ch) as f32)),
+        "offset_amp_per_channel" => CF::from_fn(|ch| Sample::add_amp(x[ch], amp_sample::<i16>(pc_offset(4, ch)))),
+        _ => x,
+    }
+}
+macro_rules! wrap_concrete {
+    (map, $s:expr) => {
+        $s.map(|x: CF| x.scale_amp(0.5f32))
+    };
+    (scale_amp, $s:expr) => {
+        $s.scale_amp(0.5f32)
+    };
+    (offset_amp, $s:expr) => {
+        $s.offset_amp(amp_sample::<i16>(4))
+    };
+    (clip_amp, $s:expr) => {
+        $s.clip_amp(amp_sample::<i16>(4))
+    };
+    (delay, $s:expr) => {
+        $s.delay(2)
+    };
+    (delay0, $s:expr) => {
+        $s.delay(0)
+    };
+    (inspect, $s:expr) => {
+        $s.inspect(|_x: &CF| {})
+    };
+    (scale_amp_per_channel, $s:expr) => {
+        $s.scale_amp_per_channel([pc_gain(0.5, 0) as f32, pc_gain(0.5, 1) as f32])
+    };
+    (offset_amp_per_channel, $s:expr) => {
+        $s.offset_amp_per_channel([amp_sample::<i16>(pc_offset(4, 0)), amp_sample::<i16>(pc_offset(4, 1))])
+    };
+}
+macro_rules! stack_pair {
+    ($rep:expr, $inner:ident, $outer:ident) => {{
+        let (ik, ok) = (stringify!($inner), stringify!($outer));
+        for m in [0u64, 1, 3] {
+            let case = format!("stack=1;inner={};outer={};m={}", ik, ok, m);
+            let leaves = vec![LeafSpec { len: None, probe: Probe::new() }];
+            let inner_node = stack_node(ik);
+            let k_outer: u64 = if ok == "delay" { 2 } else { 0 };
+            let r = vmon::catch(std::panic::AssertUnwindSafe(|| -> Result<(), (String, String)> {
+                let base: Dyn<CF> = build::<CF>(&Node::Leaf(0), &leaves, &mut Vec::new());
+                let mut a = wrap_concrete!($inner, base);
+                for i in 0..m {
+                    let (got, want): (CF, CF) = (a.next(), eval::<CF>(&inner_node, i, &leaves));
+                    if got != want {
+                        return Err((format!("{}|frame_not_pointwise", ik), format!("output {}: got {:?}, interpreter says {:?}", i, got, want)));
+                    }
+                }
+                let mut b = wrap_concrete!($outer, a);
+                let n_out = 12u64;
+                for j in 0..n_out {
+                    let got: CF = b.next();
+                    let want: CF = if j < k_outer { CF::EQUILIBRIUM } else { stack_pointwise(ok, eval::<CF>(&inner_node, m + j - k_outer, &leaves)) };
+                    if got != want {
+                        return Err(("stack|rewrapped_by_value|frame_not_pointwise".into(), format!("{} pulled {} times, then moved into {}: output {} = {:?}, expected {:?}", ik, m, ok, j, got, want)));
+                    }
+                    bump(&EVALS);
+                }
+                let mut exp = Vec::new();
+                expected_pulls(&inner_node, m + n_out - k_outer, &mut exp);
+                for (j, want) in exp {
+                    if leaves[j].probe.pulls() != want {
+                        return Err(("stack|rewrapped_by_value|source_pull_count".into(), format!("{} pulled {} times, then moved into {}: after {} more outputs the leaf was pulled {} times, expected {}", ik, m, ok, n_out, leaves[j].probe.pulls(), want)));
+                    }
+                }
+                Ok(())
+            }));
+            match r {
+                Ok(Ok(())) => {}
+                Ok(Err((sig, d))) => $rep.violation(&format!("adaptor|{}", sig), d, case),
+                Err(msg) => $rep.violation("adaptor|stack|rewrapped_by_value|panic", format!("{} pulled {} times, then moved into {}: panicked: {}", ik, m, ok, msg), case),
+            }
+            $rep.hit("concrete_adaptor_pairs_rewrapped_mid_stream");
+            $rep.nontrivial(vmon::hash_combine(vmon::hash_str(ik), vmon::hash_combine(vmon::hash_str(ok), m)));
+        }
+    }};
+}
+macro_rules! all_stack_pairs {
+    ($rep:expr; $($k:ident),*) => { all_stack_pairs!(@outer $rep; [$($k),*]; $($k),*) };
+    (@outer $rep:expr; $all:tt; $($o:ident),*) => { $( all_stack_pairs!(@inner $rep; $o; $all); )* };
+    (@inner $rep:expr; $o:ident; [$($i:ident),*]) => { $( stack_pair!($rep, $i, $o); )* };
+}
+fn concrete_stacks(rep: &mut Report) {
+    let _ = STACK_KINDS;
+    all_stack_pairs!(rep; map, scale_amp, offset_amp, clip_amp, delay, inspect, scale_amp_per_channel, offset_amp_per_channel, delay0);
+}
+
 // ------------------------------------------------------------------ long runs past 2^32 frames
 /// One adaptor value driven for 2^32 + 2^12 frames: any per-call counter kept in 32 bits wraps
 /// inside the run, any 64-bit one does not. Source frame n is `((n % 4093) + 1) / 8192` (exact in
@@ -298,6 +417,11 @@ fn main() {
     let mut rep = Report::new("C04", &cli.stage);
     if let Some(cs) = &cli.case {
         let m = vmon::cli::parse_case(cs);
+        if m.contains_key("stack") {
+            concrete_stacks(&mut rep);
+            flush(&mut rep);
+            finish(&cli, rep, t0);
+        }
         if m.contains_key("long") {
             long_runs(&mut rep, cli.threads, m["frames"].parse().unwrap());
             flush(&mut rep);
@@ -319,6 +443,8 @@ fn main() {
         rep.oblige("adaptors_driven_past_2_pow_32_frames", 11);
         long_runs(&mut rep, cli.threads, (1u64 << 32) + (1 << 12));
     }
+    rep.oblige("concrete_adaptor_pairs_rewrapped_mid_stream", 243);
+    concrete_stacks(&mut rep);
     rep.oblige("by_ref_resumes", 1);
     rep.oblige("leaves_of_different_lengths", 1);
     rep.oblige("adaptor_kinds_at_depth_1", 12);
